@@ -4,7 +4,7 @@ written by gen_fnprops.py) + the hand-written theorems below. Every theorem is c
 HDR = '''(* Properties_%s.v -- %s
    Only theorem statements, each closed by [exact <lemma>], with Print Assumptions beneath. *)
 From Coq Require Import List ZArith Lia Bool.
-From SC Require Import Base Wp Cfg Comb CombProofs CopySpec ModStr ModMem ProofsStr ProofsMem SpecStr SpecMem PropStr FnProps PropDefs.
+From SC Require Import Base Wp Cfg Comb CombProofs CopySpec ModStr ModMem ModExt ProofsStr ProofsMem SpecStr SpecMem SpecExt PropStr FnProps PropDefs.
 From SC.Gen Require Import Consts.
 Import ListNotations.
 Local Open Scope Z_scope.
@@ -97,19 +97,29 @@ EXTRA['C06'] = '(* memory family: success = exactly the source bytes moved, noth
        'exact memset_s_spec.') + \
    ''.join(thm('C06_%s' % n, 'forall c d len destbos m, d <> 0 -> 1 <= len * %d -> ((destbos = BOS_UNKNOWN /\\ len * %d <= rmax_mem c) \\/ (destbos <> BOS_UNKNOWN /\\ len * %d <= destbos)) -> wp (%s c d len destbos) m (fun r m\' => r = EOK /\\ forall a, m\' a = if in_range d (len * %d) a then 0 else m a)' % (w, w, w, n, w),
                'intros c d len destbos m. exact (memzerow_s_spec c %d d len destbos m).' % w) for n, w in (('memzero_s', 1), ('memzero16_s', 2), ('memzero32_s', 4)))
+EXTRA['C06'] += '(* round 3: pointer-returning copy and in-place case conversion *)\n' + \
+   thm('C06_stpcpy_s', 'forall c d dmax s errp m L, wf_mem m -> d <> 0 -> s <> 0 -> errp <> 0 -> 1 <= dmax <= rmax_str c -> 0 <= L < dmax -> (forall i, 0 <= i < L -> m (s + i) <> 0) -> m (s + L) = 0 -> (s + L < d \\/ d + dmax <= s) -> (errp + 4 <= d \\/ d + dmax <= errp) -> wp (stpcpy_s c d dmax s errp BOS_UNKNOWN BOS_UNKNOWN) m (fun r m\' => r = d + L /\\ load m\' 4 errp = 0 /\\ (forall i, 0 <= i <= L -> m\' (d + i) = m (s + i)) /\\ (null_slack c = true -> forall a, d + L < a < d + dmax -> m\' a = 0) /\\ (forall a, ~ (d <= a < d + dmax) -> ~ (errp <= a < errp + 4) -> m\' a = m a))',
+       'exact stpcpy_s_spec.') + \
+   thm('C06_strtolowercase_s', 'forall c d dmax m, d <> 0 -> 1 <= dmax <= rmax_str c -> wp (strtolowercase_s c d dmax BOS_UNKNOWN) m (fun r m\' => r = EOK /\\ exists t, 0 <= t <= dmax /\\ (forall i, 0 <= i < t -> m (d + i) <> 0) /\\ (t < dmax -> m (d + t) = 0) /\\ forall a, m\' a = if (d <=? a) && (a <? d + t) then conv 65 90 32 (m a) else m a)',
+       'exact strtolowercase_s_spec.') + \
+   thm('C06_strtouppercase_s', 'forall c d dmax m, d <> 0 -> 1 <= dmax <= rmax_str c -> wp (strtouppercase_s c d dmax BOS_UNKNOWN) m (fun r m\' => r = EOK /\\ exists t, 0 <= t <= dmax /\\ (forall i, 0 <= i < t -> m (d + i) <> 0) /\\ (t < dmax -> m (d + t) = 0) /\\ forall a, m\' a = if (d <=? a) && (a <? d + t) then conv 97 122 (-32) (m a) else m a)',
+       'exact strtouppercase_s_spec.')
 EXTRA['C07'] = '(* memory family, every placement: memmove = copy through a temporary; memcpy rejects exactly intersecting, non-identical operands *)\n' + memspec('C07') + \
    thm('C07_overlap_test_is_intersection', 'forall dp dlen sp slen, 0 < dlen -> 0 < slen -> (chk_ovrlp_butsame dp dlen sp slen = true <-> (dp <> sp /\\ dp < sp + slen /\\ sp < dp + dlen))', 'exact chk_ovrlp_butsame_spec.') + \
    thm('C07_overlap_test_strict', 'forall dp dlen sp slen, 0 < dlen -> 0 < slen -> (chk_ovrlp dp dlen sp slen = true <-> (dp < sp + slen /\\ sp < dp + dlen))', 'exact chk_ovrlp_spec.')
-EXTRA['C03'] = ''
+EXTRA['C03'] = '(* strnterminate_s: always terminated within dmax, at the first NUL or at dmax-1; returns the length kept; nothing else changes *)\n' + \
+   thm('C03_strnterminate_s', 'forall c d dmax m, d <> 0 -> 1 <= dmax <= rmax_str c -> wp (strnterminate_s c d dmax BOS_UNKNOWN) m (fun r m\' => 0 <= r < dmax /\\ (forall i, 0 <= i < r -> m (d + i) <> 0) /\\ (r < dmax - 1 -> m (d + r) = 0) /\\ m\' (d + r) = 0 /\\ (forall a, a <> d + r -> m\' a = m a))',
+       'exact strnterminate_s_spec.')
 EXTRA['C08'] = ''
 TITLES = {'C02': 'C02: no read outside what the caller declared readable', 'C03': 'C03: string producers never leave dest unterminated',
           'C04': 'C04: a failed call leaves no partial result', 'C05': 'C05: every violation reported exactly once with the returned code',
           'C06': 'C06: success means the exact, complete result', 'C07': 'C07: overlap detection; memmove exactness',
           'C08': 'C08: nothing stale behind the terminator'}
 import os
+V = os.path.dirname(os.path.dirname(os.path.abspath(__file__)))
 for pid in ('C02', 'C03', 'C04', 'C05', 'C06', 'C07', 'C08'):
     body = HDR % (pid, TITLES[pid], pid, pid)
-    inc = '/verif/coq/gen_%s_str.inc' % pid
+    inc = V + '/coq/gen_%s_str.inc' % pid
     if os.path.exists(inc): body += '\n(* ---- copy / concatenate family (generated from the table in harness/gen_fnprops.py) ---- *)\n' + open(inc).read()
     body += '\n' + EXTRA[pid] + TAIL % (pid, pid)
-    open('/verif/coq/Properties_%s.v' % pid, 'w').write(body)
+    open(V + '/coq/Properties_%s.v' % pid, 'w').write(body)
